@@ -91,7 +91,10 @@ RE_INT = re.compile(r'-?(0|[1-9][0-9]*)\Z')
 RE_SUM = re.compile(r'(0|[1-9][0-9]*)([+*](0|[1-9][0-9]*))*\Z')
 
 class Evaluator:
-    def __init__(self, state, base=0, case=0, cmdvars=None, pc=0, max_iter=64):
+    def __init__(self, state, base=0, case=0, cmdvars=None, pc=0, max_iter=64, let_strip=False):
+        # let_strip: model of the (undocumented) behaviour behind finding C17-let-string-edge-whitespace-stripped-in-asm,
+        # used only to recognise that finding, never as the expected value
+        self.let_strip = let_strip
         self.st = state
         self.base = base          # 0, 10 (--decimal), 16 (--hex)
         self.case = case          # 0, 1 (--lower), 2 (--upper)
@@ -384,7 +387,23 @@ class Evaluator:
 
     def t_let(self, n, env):
         if n.name.endswith('$'):
-            self.st.vars[n.name] = self.text(n.v, env)
+            if self.let_strip and n.v.k == 'seq':
+                # whitespace is stripped after the macros in the value have been expanded but before the replacement
+                # fields are substituted: spaces produced by a field survive
+                parts = [[self.text(p, env), p.k == 'fld'] for p in n.v.items]
+                for seq in (parts, parts[::-1]):
+                    for part in seq:
+                        if part[1]:
+                            break
+                        part[0] = part[0].lstrip() if seq is parts else part[0].rstrip()
+                        if part[0]:
+                            break
+                v = ''.join(p[0] for p in parts)
+            else:
+                v = self.text(n.v, env)
+                if self.let_strip:
+                    v = v.strip()
+            self.st.vars[n.name] = v
         else:
             self.st.vars[n.name] = self.num(n.e, env)
         return ''
